@@ -489,11 +489,13 @@ class MoneyMeta(QuantityMeta):
         Raises:
             ValueError: currency with code `iso_code` not in database
         """
+        # look-up the database first: a code which is not in there has to be
+        # rejected even if a currency with that symbol got declared directly
+        iso_code, iso_num_code, name, minor_unit, countries = \
+            get_currency_info(iso_code)
         try:
             reg_curr = cls.get_unit_by_symbol(iso_code)
         except ValueError:
-            iso_code, iso_num_code, name, minor_unit, countries = \
-                get_currency_info(iso_code)
             curr = cls.new_unit(iso_code, name, minor_unit)
             return curr
         else:  # currency already registered
